@@ -268,5 +268,21 @@ theorem stOK_init_of_finiteLits {m : Model α} (b : BoundsMap α) (d : List (Dom
   intro c hc
   exact ⟨trivial, (h.2 c hc).1, (h.2 c hc).2⟩
 
+/-! ### the missing-bounds error, globally -/
+
+/-- every `MissingFiniteBounds vs` that leaves `linearizeWith` — raised by an `abs`, `min` or `max` at any
+depth, in the objective, a source constraint or a generated one — carries `varsWithoutFiniteBounds e bm` for
+the expression `e` being lowered and the bounds map `bm` of that moment, and `bm` agrees with the input
+bounds map on every variable of the input domain. -/
+theorem missing_bounds_global {m : Model α} {b : BoundsMap α} {d : List (DomVar α)} {vs : List String}
+    (h : linearizeWith m b d = .error (.missingFiniteBounds vs)) :
+    ∃ (e : Exp α) (bm : BoundsMap α), vs = varsWithoutFiniteBounds e bm ∧
+      ∀ x ∈ d.map (·.name), lookupB bm x = lookupB b x := by
+  obtain ⟨s', hr, herr⟩ :=
+    linearizeWith_error (N := fun _ => True) trivial closed_true simpOK_true (allLits_true _)
+      (p := fun _ => true) ⟨fun c _ => ⟨trivial, allLits_true _, allLits_true _⟩, by simp [initSt]⟩ h
+  obtain ⟨e, he⟩ := herr
+  exact ⟨e, s'.bounds, he, fun x hx => hr.bnd x hx⟩
+
 end Lin
 end Rooc
